@@ -46,16 +46,19 @@ type ltr struct {
 	g            []string // bounds guards of the expression being translated
 	inFunc       bool     // a `return` is allowed here (not inside a loop body / join)
 	retCls       string
-	flat         map[string]bool // x_f for fields of local struct variables read inside an extracted loop
-	inLoop       int             // > 0: `break` allowed (leaves the innermost loop)
-	brk          bool            // the loop being translated contains a break: its body yields (continue?, state)
-	brkRet       string          // what `break` evaluates to in that body
-	elemMethods  []string        // methods called on the elements of an LT slice (parameters of the generated section)
-	sliceRecv    string          // the receiver when it is an LT slice: the function returns it
-	elemMutators []string        // pointer-receiver methods called as statements on elements: M : T -> N -> T
-	outVars      []lvar          // a function without result returns these (LT slices it reorders, the collector calls it makes)
-	elemPreds    []string        // bool methods called on elements: M : T -> bool
-	label        string          // the label of the loop being extracted: `break <label>` directly in its body leaves it
+	flat         map[string]bool      // x_f for fields of local struct variables read inside an extracted loop
+	inLoop       int                  // > 0: `break` allowed (leaves the innermost loop)
+	brk          bool                 // the loop being translated contains a break: its body yields (continue?, state)
+	brkRet       string               // what `break` evaluates to in that body
+	elemMethods  []string             // methods called on the elements of an LT slice (parameters of the generated section)
+	sliceRecv    string               // the receiver when it is an LT slice: the function returns it
+	elemMutators []string             // pointer-receiver methods called as statements on elements: M : T -> N -> T
+	outVars      []lvar               // a function without result returns these (LT slices it reorders, the collector calls it makes)
+	elemPreds    []string             // bool methods called on elements: M : T -> bool
+	label        string               // the label of the loop being extracted: `break <label>` directly in its body leaves it
+	alias        map[string][2]string // x := &a[i] : x -> (a, translated i)
+	elemMutRets  []string             // M_ret : T -> N -> N, what a pointer-receiver method called for its result returns
+	named        string               // a named result (zero-initialised, returned by a bare return)
 }
 
 func (t *ltr) clsL(ty types.Type) string {
@@ -70,6 +73,11 @@ func (t *ltr) clsL(ty types.Type) string {
 			return "LT" // a slice of opaque elements: read through their methods, reordered by swaps
 		}
 		return "?"
+	}
+	if pt, ok := ty.(*types.Pointer); ok {
+		if _, ok := pt.Elem().Underlying().(*types.Struct); ok {
+			return "PT" // a pointer to an element of an LT slice: modelled as the element's index
+		}
 	}
 	return t.cls(ty)
 }
@@ -181,6 +189,8 @@ func coqTy(c string) string {
 		return "list T"
 	case "LH":
 		return "list (Z * N)"
+	case "PT":
+		return "Z"
 	}
 	return "UNTRANSLATABLE_type"
 }
@@ -441,12 +451,38 @@ func (t *ltr) assignedIn(list []ast.Stmt, out map[string]bool, local map[string]
 			continue
 		}
 		switch x := s.(type) {
+		case *ast.RangeStmt:
+			if id, ok := x.Key.(*ast.Ident); ok && x.Value == nil && x.Tok == token.DEFINE {
+				local[id.Name] = true
+				if !t.assignedIn(x.Body.List, out, local) {
+					return false
+				}
+				continue
+			}
+			return false
 		case *ast.AssignStmt:
 			if a, _, _, ok := t.swapOf(x); ok {
 				if !local[a] {
 					out[a] = true
 				}
 				continue
+			}
+			if len(x.Rhs) == 1 {
+				if a, _, _, _, ok := t.aliasCall(x.Rhs[0]); ok && !local[a] {
+					out[a] = true
+				}
+				if u, ok := x.Rhs[0].(*ast.UnaryExpr); ok && u.Op == token.AND && x.Tok == token.DEFINE {
+					if id, ok := x.Lhs[0].(*ast.Ident); ok {
+						local[id.Name] = true
+						continue
+					}
+				}
+				if _, _, ok := t.aliasOf(x.Rhs[0]); ok { // recv.f = x : the pointer field takes the element's index
+					if n, ok := t.varName(x.Lhs[0]); ok && !local[n] {
+						out[n] = true
+						continue
+					}
+				}
 			}
 			if len(x.Lhs) != 1 || len(x.Rhs) != 1 {
 				return false
@@ -470,7 +506,9 @@ func (t *ltr) assignedIn(list []ast.Stmt, out map[string]bool, local map[string]
 			}
 		case *ast.IfStmt:
 			if x.Init != nil {
-				return false
+				if !t.assignedIn([]ast.Stmt{x.Init}, out, local) {
+					return false
+				}
 			}
 			if !t.assignedIn(x.Body.List, out, local) {
 				return false
@@ -616,6 +654,12 @@ func (t *ltr) lstmts(list []ast.Stmt, k string, ind string) string {
 		if !t.inFunc {
 			return t.fail(s, "return inside a loop body or a joining branch")
 		}
+		if len(x.Results) == 0 && t.named != "" {
+			if len(t.mutRecv) > 0 {
+				return "Ret (" + tupleV(t.mutRecv) + ", " + t.named + ")"
+			}
+			return "Ret " + t.named
+		}
 		if len(x.Results) == 0 && t.sliceRecv != "" {
 			return "Ret " + t.sliceRecv
 		}
@@ -649,7 +693,77 @@ func (t *ltr) lstmts(list []ast.Stmt, k string, ind string) string {
 				return "let " + n + " := " + wrap(c, "("+n+op+one+")%Z") + " in\n" + ind + t.lstmts(rest, k, ind)
 			}
 		}
+	case *ast.RangeStmt:
+		if id, ok := x.Key.(*ast.Ident); ok && x.Value == nil && x.Tok == token.DEFINE && t.clsL(t.info.Types[x.X].Type) == "LT" {
+			a := t.lexpr(x.X)
+			idx := mangle(id.Name)
+			t.declare(idx, "Z")
+			vs0, ok := t.stateVars(s, x.Body.List)
+			if !ok {
+				break
+			}
+			vs := append(append([]lvar{}, vs0...), lvar{idx, "Z"})
+			t.nloop++
+			lname := fmt.Sprintf("%s_loop%d", t.fname, t.nloop)
+			inState := map[string]bool{}
+			for _, v := range vs {
+				inState[v.name] = true
+			}
+			var params []lvar
+			for _, v := range t.scope {
+				if !inState[v.name] {
+					params = append(params, v)
+				}
+			}
+			var pdecl []string
+			for _, v := range params {
+				pdecl = append(pdecl, fmt.Sprintf("(%s : %s)", v.name, coqTy(v.cls)))
+			}
+			saved, sc := t.inFunc, len(t.scope)
+			t.inFunc = false
+			t.inLoop++
+			b := t.lstmts(x.Body.List, "let "+idx+" := (i64 ("+idx+" + 1%Z)%Z) in\n        Ret "+tupleV(vs), "        ")
+			t.inLoop--
+			t.scope = t.scope[:sc]
+			t.inFunc = saved
+			t.aux = append(t.aux, fmt.Sprintf("Fixpoint %s (fuel : nat) %s (st : %s) {struct fuel} : res (%s) :=\n  let %s := st in\n  if (%s <? (Z.of_nat (length %s)))%%Z then\n    match fuel with\n    | O => OutOfFuel\n    | S fuel' =>\n      bind (%s)\n        (fun st' => %s fuel' %s st')\n    end\n  else Ret %s.\n",
+				lname, strings.Join(pdecl, " "), tupleTy(vs), tupleTy(vs), pat(vs), idx, a, b, lname, strings.Join(names(params), " "), tupleV(vs)))
+			return "let " + idx + " := 0%Z in\n" + ind + "bind (" + lname + " fuel " + strings.Join(names(params), " ") + " " + tupleV(vs) + ")\n" + ind + "(fun " + pat(vs) + " =>\n" + ind + t.lstmts(rest, k, ind) + ")"
+		}
 	case *ast.AssignStmt:
+		if len(x.Lhs) == 1 && len(x.Rhs) == 1 {
+			// x := &a[i]
+			if u, ok := x.Rhs[0].(*ast.UnaryExpr); ok && u.Op == token.AND && x.Tok == token.DEFINE {
+				if ix, ok := u.X.(*ast.IndexExpr); ok && t.clsL(t.info.Types[ix.X].Type) == "LT" {
+					if id, ok := x.Lhs[0].(*ast.Ident); ok {
+						a := t.lexpr(ix.X)
+						t.alias[id.Name] = [2]string{a, t.lexpr(ix.Index)}
+						return t.lstmts(rest, k, ind)
+					}
+				}
+			}
+			// v := x.M(arg) with x an alias of a[i]: the result M_ret of the old element, then the element M leaves
+			if a, i, m, arg, ok := t.aliasCall(x.Rhs[0]); ok && i != "" {
+				if id, ok := x.Lhs[0].(*ast.Ident); ok && t.clsL(t.info.TypeOf(x.Lhs[0])) == "N" {
+					t.elemMutators = addOnce(t.elemMutators, m)
+					t.elemMutRets = addOnce(t.elemMutRets, m+"_ret")
+					t.g = nil
+					va := t.lexpr(arg)
+					t.g = nil
+					v := mangle(id.Name)
+					t.declare(v, "N")
+					return "if negb (inbT " + a + " " + i + ") then Panic else\n" + ind + "let " + v + " := keyAt (fun e => " + m + "_ret e " + va + ") " + a + " " + i + " in\n" + ind +
+						"let " + a + " := updWith (fun e => " + m + " e " + va + ") " + a + " " + i + " in\n" + ind + t.lstmts(rest, k, ind)
+				}
+			}
+			// recv.f = x with x an alias of a[i]: the pointer field takes the index
+			if _, i, ok := t.aliasOf(x.Rhs[0]); ok && i != "" && x.Tok == token.ASSIGN {
+				if n, ok := t.varName(x.Lhs[0]); ok && t.clsL(t.info.Types[x.Lhs[0]].Type) == "PT" {
+					t.declare(n, "PT")
+					return "let " + n + " := " + i + " in\n" + ind + t.lstmts(rest, k, ind)
+				}
+			}
+		}
 		if a, i, j, ok := t.swapOf(x); ok && t.inScope(a) {
 			t.g = nil
 			vi, vj := t.lexpr(i), t.lexpr(j)
@@ -693,8 +807,8 @@ func (t *ltr) lstmts(list []ast.Stmt, k string, ind string) string {
 			})
 		}
 	case *ast.IfStmt:
-		if x.Init != nil {
-			break
+		if x.Init != nil { // if v := e; c { ... }  ==  v := e; if c { ... }   (v stays visible: harmless)
+			return t.lstmts(append([]ast.Stmt{x.Init, &ast.IfStmt{If: x.If, Cond: x.Cond, Body: x.Body, Else: x.Else}}, rest...), k, ind)
 		}
 		if terminal(x.Body.List) && x.Else == nil {
 			return t.guarded(func() string { return t.lexpr(x.Cond) }, func(c string) string {
@@ -806,10 +920,16 @@ func (t *ltr) recvAssigned(fd *ast.FuncDecl) []string {
 		}
 		return true
 	})
+	for _, a := range t.alias { // an LT field of the receiver written through x := &recv.f[i]; x.M(..)
+		if strings.HasPrefix(a[0], t.recv+"_") && t.recv != "" && !m[a[0]] {
+			m[a[0]] = true
+			order = append([]string{a[0]}, order...)
+		}
+	}
 	return order
 }
 
-var cursorFuncs = []string{"EntriesCursor_linearSkipTo", "EntriesCursor_SkipTo", "FieldCursors_Sort", "KGroupsBEIndex_retrieveK"}
+var cursorFuncs = []string{"EntriesCursor_linearSkipTo", "EntriesCursor_SkipTo", "FieldCursors_Sort", "KGroupsBEIndex_retrieveK", "FieldCursor_SkipTo"}
 
 // the receiver's integer / slice fields, in declaration order, as variables recv_<field>
 func (t *ltr) recvFields(rt types.Type) []lvar {
@@ -871,7 +991,7 @@ func translateLoopFuncs(p *packages.Package, want []string) (defs []string, errs
 			for _, fl := range fd.Type.Params.List {
 				for _, n := range fl.Names {
 					c := t.clsL(p.TypesInfo.TypeOf(fl.Type))
-					if c == "?" {
+					if c == "?" || c == "PT" {
 						// a parameter outside the subset (the retrieve context): only its collector is modelled, as the list of calls made
 						if pt, ok := p.TypesInfo.TypeOf(fl.Type).(*types.Pointer); ok {
 							if st, ok := pt.Elem().Underlying().(*types.Struct); ok {
@@ -892,6 +1012,7 @@ func translateLoopFuncs(p *packages.Package, want []string) (defs []string, errs
 				}
 			}
 			nparams := len(t.scope)
+			t.collectAliases(fd.Body)
 			for _, n := range t.recvAssigned(fd) {
 				for _, v := range t.scope {
 					if v.name == n {
@@ -945,12 +1066,43 @@ func translateLoopFuncs(p *packages.Package, want []string) (defs []string, errs
 				for _, v := range t.scope[:nparams] {
 					pdecl = append(pdecl, fmt.Sprintf("(%s : %s)", v.name, coqTy(v.cls)))
 				}
-				body := t.lstmts(fd.Body.List, "UNTRANSLATABLE_fallthrough", "  ")
-				text = strings.Join(t.aux, "\n")
+				fall := "UNTRANSLATABLE_fallthrough"
+				pre := ""
+				if rn := fd.Type.Results.List[0].Names; len(rn) == 1 && (t.retCls == "N" || t.retCls == "Z") {
+					// a named result: zero-initialised, returned by a bare return and by falling off the end
+					t.named = mangle(rn[0].Name)
+					t.declare(t.named, t.retCls)
+					pre = "let " + t.named + " := 0%" + t.retCls + " in\n  "
+					fall = "Ret " + t.named
+					if len(t.mutRecv) > 0 {
+						fall = "Ret (" + tupleV(t.mutRecv) + ", " + t.named + ")"
+					}
+				}
+				body := pre + t.lstmts(fd.Body.List, fall, "  ")
+				needSection := len(t.elemMethods)+len(t.elemMutators)+len(t.elemPreds)+len(t.elemMutRets) > 0
+				if needSection {
+					text = fmt.Sprintf("Section %s_S.\nVariable T : Type.\n", name)
+					for _, m := range t.elemMethods {
+						text += fmt.Sprintf("Variable %s : T -> N.\n", m)
+					}
+					for _, m := range t.elemPreds {
+						text += fmt.Sprintf("Variable %s : T -> bool.\n", m)
+					}
+					for _, m := range t.elemMutators {
+						text += fmt.Sprintf("Variable %s : T -> N -> T.\n", m)
+					}
+					for _, m := range t.elemMutRets {
+						text += fmt.Sprintf("Variable %s : T -> N -> N.\n", m)
+					}
+				}
+				text += strings.Join(t.aux, "\n")
 				if len(t.aux) > 0 {
 					text += "\n"
 				}
 				text += fmt.Sprintf("Definition %s (fuel : nat) %s : res (%s) :=\n  %s.\n", name, strings.Join(pdecl, " "), rty, body)
+				if needSection {
+					text += fmt.Sprintf("End %s_S.\n", name)
+				}
 			}
 			if len(t.errs) > 0 || strings.Contains(text, "UNTRANSLATABLE") {
 				text = fmt.Sprintf("Definition %s_untranslatable := tt.\n", name)
@@ -1294,4 +1446,66 @@ func translateLabeledLoop(p *packages.Package, fn, label string) (text string, e
 		}
 	}
 	return
+}
+
+// aliasOf: x where x := &a[i] was seen
+func (t *ltr) aliasOf(e ast.Expr) (slice, idx string, ok bool) {
+	id, isId := e.(*ast.Ident)
+	if !isId || t.alias == nil {
+		return
+	}
+	a, found := t.alias[id.Name]
+	return a[0], a[1], found
+}
+
+// aliasCall: x.M(arg) with x an alias of a[i], M a pointer-receiver method with one unsigned argument
+func (t *ltr) aliasCall(e ast.Expr) (slice, idx, m string, arg ast.Expr, ok bool) {
+	c, isCall := e.(*ast.CallExpr)
+	if !isCall || len(c.Args) != 1 {
+		return
+	}
+	sel, isSel := c.Fun.(*ast.SelectorExpr)
+	if !isSel {
+		return
+	}
+	a, i, found := t.aliasOf(sel.X)
+	if !found || t.clsL(t.info.Types[c.Args[0]].Type) != "N" {
+		return
+	}
+	return a, i, sel.Sel.Name, c.Args[0], true
+}
+
+func addOnce(l []string, x string) []string {
+	for _, e := range l {
+		if e == x {
+			return l
+		}
+	}
+	return append(l, x)
+}
+
+// collectAliases: every `x := &a[i]` of a function body, so that the assigned-variable analysis knows which slice a
+// method call through x writes
+func (t *ltr) collectAliases(body *ast.BlockStmt) {
+	t.alias = map[string][2]string{}
+	ast.Inspect(body, func(n ast.Node) bool {
+		as, ok := n.(*ast.AssignStmt)
+		if !ok || as.Tok != token.DEFINE || len(as.Lhs) != 1 || len(as.Rhs) != 1 {
+			return true
+		}
+		u, ok := as.Rhs[0].(*ast.UnaryExpr)
+		if !ok || u.Op != token.AND {
+			return true
+		}
+		ix, ok := u.X.(*ast.IndexExpr)
+		if !ok || t.clsL(t.info.Types[ix.X].Type) != "LT" {
+			return true
+		}
+		if name, ok := t.varName(ix.X); ok {
+			if id, ok := as.Lhs[0].(*ast.Ident); ok {
+				t.alias[id.Name] = [2]string{name, ""}
+			}
+		}
+		return true
+	})
 }
